@@ -135,6 +135,23 @@ ADD4 = {
  "C17": " (R3) the keys a language prefix may override are exactly the keys SharedConfig::set understands.",
 }
 
+ADD5 = {
+ "C01": " (R3) type ids are positions in unfiltered definition vectors; (R2) accepted Option<non-pointer> parameters keep the DiplomatOption wrapper (abstract interpretation, shared C10.R2).",
+ "C02": " (R6) C++ operator names agree with SpecialMethod::operator_str; (R4) per return shape the is_ok flag is tested exactly for fallible and nullable shapes, early returns included.",
+ "C03": " (R5) a returned &T / Option<&T> is recorded as borrowed, Box<T> as owned (by the arm that matched); MIR rules run on the function with its private helpers spliced in.",
+ "C04": " (R1) every nanobind registration arm passes lifetime_args, the borrow info of every visited value is used (js, dart); (R6) the struct lifetime map is consumed whole, JS struct template reaches fields through the instance.",
+ "C08": " (R6) padding is left to the caller iff scalar_count == Scalars(2) (resolved through locals/parameters); (R8) a Layout's size/align goes to the runtime parameter of the same name, append-array spreads tolerate a missing entry; (R9) bool-valued type classifications never look at unwrap_option().",
+ "C09": " (R7) every fmt_c_* of the C++ formatter delegates to the C formatter; a C++ header includes its own declaration header first; JS enum keys are computed keys (shared C11.R1).",
+ "C10": " (R2) the lowered value of an accepted Option<non-pointer> is DiplomatOption(..), of a pointer the optional opaque (abstract interpretation).",
+ "C11": " (R1) Kotlin variant numbers are the variant's discriminant or the position bound with its own name.",
+ "C12": " (R7) runtime types are recognised through is_runtime_type in the whole chain of TypeName::from_syn (qualified DiplomatWrite stays a write parameter); paths are filtered for feasibility.",
+ "C13": " (R6) every AST constructor adds the item's own attributes; (R3) the condition parser never takes a parsed formula apart; (R7) whole Attrs values are not carried from one module to the next; target routing read from dispatch tables.",
+ "C14": " (R2) positional ids; (R1) one spelling per shared config key (shared C17); (R5) module attributes not carried over (shared C13.R7).",
+ "C15": " (R3) Result unwraps in the backends are of triaged infallible kinds; (R4) the attribute validator's parameter-count / receiver checks are unconditional within their arm.",
+ "C16": " (R7) the JS runtime measures UTF-8 length per code point; (R4) DiplomatOwnedSlice::drop releases as a Box, nothing in the runtime calls diplomat_alloc/free.",
+ "C17": " (R5) the value of a #[diplomat::config] entry is the expression's token text (a quoted value stays a string).",
+}
+
 def main():
     props = [json.loads(l) for l in open(os.path.join(V, "properties.jsonl"))]
     checks = []
@@ -150,7 +167,7 @@ def main():
                 "evidence_file": "/verif/evidence/%s.json" % pid,
                 "replay_cmd_template": "./check %s quick  # replay file {path} lists the violated rule instances" % pid,
                 "engine": "dipfacts+rules",
-                "level_claimed": {"category": "other", "text": c["text"] + ADD.get(pid, ("", ""))[0] + ADD3.get(pid, "") + ADD4.get(pid, ""), "design_ref": "DESIGN.md section 4 " + pid},
+                "level_claimed": {"category": "other", "text": c["text"] + ADD.get(pid, ("", ""))[0] + ADD3.get(pid, "") + ADD4.get(pid, "") + ADD5.get(pid, ""), "design_ref": "DESIGN.md section 4 " + pid},
                 "level_note": c["note"],
                 "technique": "static analysis: " + c["technique"] + ADD.get(pid, ("", ""))[1],
             })
@@ -165,7 +182,7 @@ def main():
             {"name": "dipfacts", "path": "engines/dipfacts", "serves_properties": [c["property_id"] for c in checks],
              "kind_free_text": "rustc_private driver (RUSTC_WORKSPACE_WRAPPER under cargo +nightly check): typed/resolved HIR trees, MIR, ADT layouts as JSON facts"},
             {"name": "rules", "path": "engines/rules", "serves_properties": [c["property_id"] for c in checks],
-             "kind_free_text": "Python rule modules over the facts: decision tables, MIR path/dominance rules, provenance/flow, loop-carried-state analysis, caller-context narrowing, fragment-balance evaluation, template linter"},
+             "kind_free_text": "Python rule modules over the facts: decision tables, MIR path/dominance rules on inlined bodies with path feasibility, provenance/flow, loop-carried-state analysis, caller-context narrowing, fragment-balance evaluation, template linter"},
             {"name": "witness", "path": "witness", "serves_properties": ["C03", "C12", "C16"],
              "kind_free_text": "compile-fail doctests with compiling twins (cargo +nightly test --doc), run by the thorough tier"},
         ],
